@@ -797,6 +797,17 @@ func (env *Env) evalCall(x *ECall) (*Val, error) {
 				}
 			}
 			return nil, fmt.Errorf("len of %s not supported", exprString(x.Args[0]))
+		case "cap":
+			if _, shadow := env.vars["cap"]; !shadow && len(x.Args) == 1 {
+				v, err := env.eval(x.Args[0])
+				if err != nil {
+					return nil, err
+				}
+				if v.T == nil || len(v.L) != 4 {
+					return nil, fmt.Errorf("cap() needs a slice")
+				}
+				return mathVal(v.L[3].T, "Int"), nil
+			}
 		case "base", "off":
 			if _, shadow := env.vars[id.Name]; !shadow && len(x.Args) == 1 {
 				v, err := env.eval(x.Args[0])
